@@ -281,6 +281,7 @@ class C01(Campaign):
     prop = "C01"
     level = "exploration"
     run_timeout_s = 1500
+    replay_timeout_s = 3000
     R = 16
     rule = ("one evaluation = one chain; one run = one scenario row (harmonic particles under Ball/Box/Sphere/composite "
             "operation/composite move/Translation proposals; the same under Hamiltonian moves; rigid dipole in a field "
